@@ -1,3 +1,4 @@
+import Ebu.Proofs.ConcDead
 import Ebu.Spec.Flow
 import Ebu.Props.C03Facts
 import Ebu.Spec.Conc
@@ -64,5 +65,38 @@ theorem flow_unsubscribe_first_match : Ebu.Flow.unsubscribeShape = true := by de
 
 /-- OBLIGATION: M2's `clear` step: one delete under the write lock -/
 theorem flow_clear_shape : Ebu.Flow.clearShape = true := by decide +kernel
+
+/-! ### a removed handler is never invoked again (M2 with its trace, `Proofs/ConcDead.lean`) -/
+
+/-- "a handler whose removal returned before the publish was called … never receives it": once a registration is
+neither in the registry nor carried by a publish in progress (in the rest of a snapshot, as running handler, at a
+program counter, as the job of a goroutine), it stays that way and no step ever enters it – whatever is published
+afterwards, under every schedule -/
+theorem removed_registration_is_dead (progs : List (List Ebu.Conc.Op)) (x x2 : Ebu.Conc.SysT)
+    (h : Ebu.Conc.ReachableT progs x) (hs : Ebu.Conc.StepsT x x2) (rid : Nat) (hrid : rid < x.s.sh.nextRid)
+    (hgone : ∀ r ∈ x.s.sh.regs, r.rid ≠ rid) (hfree : ∀ th ∈ x.s.ths, Ebu.Conc.carriesReg rid th = false) :
+    Ebu.Conc.entriesOfReg rid x2.tr = Ebu.Conc.entriesOfReg rid x.tr ∧
+    (∀ r ∈ x2.s.sh.regs, r.rid ≠ rid) ∧ (∀ th ∈ x2.s.ths, Ebu.Conc.carriesReg rid th = false) :=
+  Ebu.Conc.removed_registration_is_dead h hs rid hrid hgone hfree
+
+/-- a registration is entered only by a goroutine that carried it before the step (it was in a snapshot taken while the
+registration was registered): nothing is delivered to a handler out of thin air -/
+theorem entered_only_if_carried (x x2 : Ebu.Conc.SysT) (i : Nat) (hstep : x.stepAt i = some x2) (rid : Nat)
+    (hnew : Ebu.Conc.entriesOfReg rid x2.tr ≠ Ebu.Conc.entriesOfReg rid x.tr) :
+    ∃ th, x.s.ths[i]? = some th ∧ Ebu.Conc.carriesReg rid th = true :=
+  Ebu.Conc.entered_only_if_carried_strong hstep rid hnew
+
+/-- non-vacuity: subscribe, publish, unsubscribe, publish – the handler ran once, then the hypotheses hold, and the
+second publish does not reach it -/
+theorem removed_registration_example :
+    Ebu.Conc.ReachableT Ebu.Conc.DeadExample.dxProgs Ebu.Conc.DeadExample.dxState ∧
+    Ebu.Conc.StepsT Ebu.Conc.DeadExample.dxState Ebu.Conc.DeadExample.dxFinal ∧
+    0 < Ebu.Conc.DeadExample.dxState.s.sh.nextRid ∧
+    (∀ r ∈ Ebu.Conc.DeadExample.dxState.s.sh.regs, r.rid ≠ 0) ∧
+    (∀ th ∈ Ebu.Conc.DeadExample.dxState.s.ths, Ebu.Conc.carriesReg 0 th = false) ∧
+    Ebu.Conc.entriesOfReg 0 Ebu.Conc.DeadExample.dxState.tr = [(0, Ebu.Conc.Obs.enter 0 0 1 false)] ∧
+    Ebu.Conc.DeadExample.dxFinal.s.ths.map (·.pc) = [Ebu.Conc.Pc.done] ∧
+    Ebu.Conc.entriesOfReg 0 Ebu.Conc.DeadExample.dxFinal.tr = [(0, Ebu.Conc.Obs.enter 0 0 1 false)] :=
+  Ebu.Conc.dead_hypotheses_satisfiable
 
 end Ebu.Props.C02
